@@ -75,6 +75,9 @@ WRAPPERS = [
     ("inherit-from", "{ inherit (§) a; }"), ("inherit-from-nl", "{\n  inherit\n    (§)\n    a;\n}"),
     ("string-interp", '"${§}"'), ("indented-interp", "''\n  ${§}\n''"),
     ("comment-before", "# c\n§"), ("paren-comment", "( # c\n  §)"), ("block-comment", "/* c */ §"),
+    # operator on its own line, an own-line comment before the middle operand of a chain
+    ("update-chain-comment-mid", "a\n//\n# c\n(§)\n// d"), ("concat-chain-comment-mid", "a\n++\n# c\n(§)\n++ d"),
+    ("update-chain-mid-bare", "a\n//\n# c\n§\n// d"), ("list-two", "[ 1 §  ]"), ("list-two-first", "[ § 2 ]"),
 ]
 LEAVES = [("id", "x"), ("list-ml", "[\n  1\n  2\n]"), ("set-ml", "{\n  a = 1;\n}")]
 # leaves used by single families only
@@ -88,6 +91,7 @@ LEAF_POOL = [
     "{ inherit a; }", "{ inherit (a) b; }", "(a)", "[\n  1\n  2\n]", "{\n  a = 1;\n}", "a # c", "/* c */ a",
     "[ /* a */ /* b */ c ]", "[ /* a */ /* b */ ]", "{ /* a */ /* b */ c = 1; }", "f /* a */ /* b */ x",
     "( /* a */ /* b */ x )", "{ a, /* a */ /* b */ b }: a", "let /* a */ /* b */ v = 1; in v",
+    "{\n  x = 1;\n\n  y = 2;\n}", "[\n  1\n\n  2\n]", "{\n  x = 1; # c\n\n  # d\n  y = 2;\n}", "[ 1 2 ]", "[ 1 [ 2 3 ] ]",
 ]
 
 # size- (not nesting-) parameterised families: n scales the length
